@@ -780,3 +780,9 @@ func (p *Program) Inline(t *Term, depth int) *Term {
 	}
 	return nt
 }
+
+// PointeeTerm describes what a pointer argument designates (the content of a
+// local whose address is passed), falling back to the value's own term.
+func (p *Program) PointeeTerm(v ssa.Value) *Term {
+	return p.addrBaseTerm(v, map[ssa.Value]bool{}, 0)
+}
